@@ -46,3 +46,11 @@ let () =
   register "front_json" (fun args -> match args with
     | p :: toks -> let (v, _) = parse_jv toks in show_res (front_json (p = "1") v)
     | _ -> "?args")
+
+(* conflict_pairs: the pairs of Config methods whose translated footprints interfere (Sys/JobCommute.conflicting_pairs over
+   Gen/JobTables.config_footprints), as obj.meth+obj.meth separated by ';' *)
+let () =
+  register "conflict_pairs" (fun _ ->
+    String.concat ";" (List.map (fun (((o1, m1), (o2, m2))) ->
+      string_of_bytes o1 ^ "." ^ string_of_bytes m1 ^ "+" ^ string_of_bytes o2 ^ "." ^ string_of_bytes m2)
+      (conflicting_pairs config_footprints)))
